@@ -224,6 +224,8 @@ def corrupt_text(text: str, c: dict) -> str:
     elif kind == "tok_swap":
         j = min(len(words) - 1, wi + 1)
         words[wi], words[j] = words[j], words[wi]
+    elif kind == "tok_insert":
+        words = words[:wi + 1] + [c["word"]] + words[wi + 1:]
     elif kind == "char_flip":
         w = words[wi]
         if w:
@@ -331,7 +333,8 @@ class C16(Sim):
 
     # ---------------------------------------------------------------- generation
     def cases(self, rng, run: int, tier: str) -> Iterator[dict]:
-        sp = S.gen_spec(rng, activations=["General"], fn_reads_output=False, cascade=False, disabled=0.04, mixed_types=0.0)
+        sp = S.gen_spec(rng, activations=["General"] if rng.random() < 0.6 else S.ACTIVATIONS, fn_reads_output=False, cascade=False,
+                        disabled=0.04, mixed_types=0.0)  # (rows are always processed one at a time here)
         if rng.random() < 0.12:
             sp = S.example_spec(rng, allow_fn_reads_output=True, randomise_cascade=False) or sp
         if rng.random() < 0.08:
@@ -383,9 +386,9 @@ class C16(Sim):
                 else:
                     for _ in range(rng.choice([1, 1, 1, 2, 3])):
                         kind = rng.choice(["line_delete", "line_duplicate", "line_swap", "tok_delete", "tok_duplicate", "tok_substitute",
-                                           "tok_substitute", "tok_swap", "char_flip", "byte_flip"])
+                                           "tok_substitute", "tok_swap", "tok_insert", "tok_insert", "char_flip", "byte_flip"])
                         ops.append({"op": "corrupt_store", "c": {"kind": kind, "pos": rng.randrange(256), "wpos": rng.randrange(16),
-                                                                 "cpos": rng.randrange(8), "byte": rng.choice([0, 9, 10, 13, 32, 35, 58, 127, 128, 192, 237, 255, rng.randrange(256)]), "word": rng.choice(WORDS + ["true", "false", "none", "Centroid", "General", "Triangle", "term:", "range:", "Engine:", "RuleBlock:", "OutputVariable:", "200", "Minimum", "Automatic"])}})
+                                                                 "cpos": rng.randrange(8), "byte": rng.choice([0, 9, 10, 13, 32, 35, 58, 127, 128, 192, 237, 255, rng.randrange(256)]), "word": rng.choice(WORDS + ["true", "false", "none", "Centroid", "General", "Triangle", "term:", "range:", "Engine:", "RuleBlock:", "OutputVariable:", "200", "Minimum", "Automatic", "First", "Highest", "Threshold", "Proportional", ">=", "2", "0.000"])}})
                 ops.append({"op": "import_store"})
         tr = {"arm": "clean", "config": sp, "ops": ops}
         if rng.random() < 0.03:
